@@ -7,7 +7,7 @@ open Momo.Pool (Ev)
   All addresses in op and answer lines are offsets from the arena start.
 
     consts | new N blockSize maxTotalBlockCount | alloc a0 a1 (answers of the manager to the 1st / 2nd request, -1 = bad_alloc)
-    | free idx | dall | rp idx | dump | destroy
+    | free idx | dall | rp idx | dump | destroy | ctor N blockSize maxTotalBlockCount (the constructor's overflow test only)
 -/
 namespace Driver.PoolU32
 
@@ -41,6 +41,11 @@ def step (s : St) : List String → St × String
   | ["new", n, bs, mt] =>
       let C := mkCfg (nat! n) (nat! bs) (nat! mt)
       ({ s with C := C, st := State.empty }, s!"S={C.S} maxBuf={C.maxBuf} bufSize={C.bufferSize}")
+  -- the constructor alone (821-831): `if (mBlockSize > UIntConst::maxSize / blockCount) throw std::length_error`
+  | ["ctor", n, bs, mt] =>
+      let C := mkCfg (nat! n) (nat! bs) (nat! mt)
+      if C.S > 18446744073709551615 / C.N then (s, "E:length")
+      else (s, s!"ok S={C.S} maxBuf={C.maxBuf}")
   | "alloc" :: answers =>
       let orc : Oracle := fun k => (answers[k]?).bind (ans s.arena)
       finish s (allocate s.C s.st orc) toString
